@@ -384,6 +384,59 @@ def run_fuzz_arm(pid, arm, bins, tier, seed, res):
     return cands
 
 
+def run_enum_arm(pid, arm, bins, tier, seed, res):
+    """Exhaustive enumeration of a finite grid: one tape per cell = prefix + mixed-radix index."""
+    import itertools
+    en = arm['enumerate']
+    exe = bins['rc']
+    base = os.path.join(RUN, pid, arm['name'] + '-enum', tier)
+    shutil.rmtree(base, ignore_errors=True)
+    os.makedirs(base)
+    cells = list(itertools.product(*[range(d) for d in en['dims']]))
+    tapes = []
+    for cell in cells:
+        tp = os.path.join(base, 'cell-' + '-'.join(map(str, cell)) + '.tape')
+        write_tape(tp, list(en.get('prefix', [])) + list(cell))
+        tapes.append(tp)
+    nproc = 16
+    chunks = [tapes[i::nproc] for i in range(nproc)]
+    procs = []
+    for i, ch in enumerate(chunks):
+        if not ch:
+            continue
+        out = os.path.join(base, 's%d' % i)
+        os.makedirs(out)
+        env = base_env(tier, arm.get('env'))
+        env['VF_OUT'] = out
+        lf = open(os.path.join(out, 'log'), 'w')
+        procs.append((i, subprocess.Popen([exe, '--replay'] + ch, env=env, stdout=lf, stderr=subprocess.STDOUT, cwd=out), out, lf, ch))
+    cands = []
+    done_cells = 0
+    for i, p, out, lf, ch in procs:
+        try:
+            rc = p.wait(timeout=en.get('timeout', 1200))
+        except subprocess.TimeoutExpired:
+            p.kill(); p.wait(); rc = 'timeout'
+            res['inconclusive'].append('%s enumeration shard %d hit the wall-clock budget' % (arm['name'], i))
+        lf.close()
+        merge_stats(out, arm['name'] + '-enum', res)
+        txt = open(os.path.join(out, 'log'), errors='replace').read()
+        done_cells += len(re.findall(r'^REPLAY-(?:PASS|FAIL|DISCARD)', txt, re.M))
+        for m in re.finditer(r'^REPLAY-FAIL (\S+?):', txt, re.M):
+            cands.append((m.group(1), exe, False))
+        if rc not in (0, 1, 3, 'timeout'):
+            # crash: the cell being executed is the first one without a verdict line
+            seen = set(re.findall(r'^REPLAY-(?:PASS|FAIL|DISCARD) (\S+?):?$', txt, re.M)) | set(m.group(1) for m in re.finditer(r'^REPLAY-FAIL (\S+?):', txt, re.M))
+            for tp in ch:
+                if tp not in seen:
+                    cands.append((tp, exe, False)); break
+    res['labels']['enumerated_cells'] = len(cells)
+    res['labels']['enumerated_cells_done'] = done_cells
+    if done_cells >= len(cells) and not cands:
+        res['labels']['exhaustive_ok'] = 1
+    return cands
+
+
 def new_res():
     return dict(evaluations=0, nontrivial=0, labels={}, maxima={}, samples=[], nt=set(), inconclusive=[], **{'pass': 0, 'discard': 0}, hard_error=False)
 
@@ -509,6 +562,11 @@ def main(argv):
             for v in pyres or []:
                 violations.append(v)
             continue
+        if arm.get('enumerate'):
+            cands = run_enum_arm(pid, arm, bins[arm['name']], a.tier, seed, res)
+            handle_candidates(cands, arm)
+        if violations:
+            break
         if arm.get('rc', True) and a.tier in arm:
             cands = run_rc_arm(pid, arm, bins[arm['name']], a.tier, seed, res)
             handle_candidates(cands, arm)
